@@ -187,3 +187,15 @@ Theorem C12_scan_copies_from_first_qmark :
 Proof. exact Scan.scan_shape. Qed.
 Print Assumptions C12_scan_copies_from_first_qmark.
 
+
+(* `Request::preparsed` re-read from src/request.rs on every run (Generated.RequestGen): the scheme
+   is cut at the first ':' (offset 0 when there is none), the arguments are handed on in the order
+   the model uses — it IS C12_Model.Request_preparsed for every input *)
+From Adb Require Struct_Request12_Proofs.
+Theorem C12_src_preparsed_is_model :
+  forall (h : str -> N) (tokenize : str -> list N)
+         (url hostname source_hostname request_type : str) (third_party : bool),
+  Struct_Request12_Proofs.interp_preparsed h tokenize url hostname source_hostname request_type third_party =
+  C12_Model.Request_preparsed h tokenize url hostname source_hostname request_type third_party.
+Proof. exact Struct_Request12_Proofs.interp_preparsed_is_model. Qed.
+Print Assumptions C12_src_preparsed_is_model.
